@@ -77,6 +77,8 @@ def sroa(facts, body, max_rounds=4):
     total = 0
     for _ in range(max_rounds):
         nb, n = _sroa_once(facts, cur)
+        nb, n2 = unwrap_constant_variants(facts, nb)
+        n += n2
         if n == 0:
             break
         total += n
@@ -447,4 +449,228 @@ def _sroa_once(facts, body):
     nb.fused = list(getattr(body, 'fused', []))
     nb.yields = getattr(body, 'yields', False)
     nb.original = getattr(body, 'original', body)
+    return nb, len(good)
+
+
+# ---------------------------------------------------------------------------------------------------------------------
+# Enum locals that hold one variant only
+
+def _is_enum_ty(facts, ty):
+    ty = (ty or '').strip()
+    if ty.startswith(('std::option::Option<', 'std::result::Result<')):
+        return True
+    base = re.sub(r'<.*$', '', ty).replace('packing::', '')
+    a = facts.adts.get(base)
+    return a is not None and len(a.get('variants') or []) > 1
+
+
+def unwrap_constant_variants(facts, body):
+    """An enum local (Option, Result, workspace enum) every definition of which builds the SAME variant — the `next: Option<T>`
+    of a generator that never ends, an `Ok(..)`-only result slot — is replaced by one local per payload field; `discr` of it
+    becomes the constant and switches on that constant are folded.  Whole copies connect locals into components; any use
+    that could observe the enum as a whole (argument, reference, return, other projection) leaves the component alone."""
+    locs = body.locals
+    cand = {l for l in range(body.arg_count + 1, len(locs)) if _is_enum_ty(facts, locs[l]['ty'])}
+    if not cand:
+        return body, 0
+    bad = set()
+    variants = {}
+    fields = {}
+    edges = []
+    discr_reads = []
+
+    def mention(pl, ctx):
+        l, p = pl['l'], pl['p']
+        for e in p:
+            if isinstance(e, dict) and e.get('idx') in cand:
+                bad.add(e['idx'])
+        if l not in cand:
+            return None
+        if not p:
+            return 'whole'
+        if len(p) >= 2 and isinstance(p[0], dict) and 'downcast' in p[0] and isinstance(p[1], dict) and 'f' in p[1]:
+            variants.setdefault(l, set()).add(p[0].get('vi'))
+            fields.setdefault(l, {})[p[1]['f']] = p[1].get('ty', '?')
+            return 'field'
+        bad.add(l)
+        return None
+
+    for bi, bb in enumerate(body.blocks):
+        for si, s in enumerate(bb['stmts']):
+            if s['s'] == 'setdiscr':
+                if s['place']['l'] in cand:
+                    bad.add(s['place']['l'])
+                continue
+            if s['s'] != 'assign':
+                continue
+            pl, rv = s['place'], s['rv']
+            kd = mention(pl, 'dest')
+            r = rv['r']
+            if kd == 'whole':
+                x = pl['l']
+                if r == 'aggr' and rv.get('agg') == 'adt' and 'vi' in rv:
+                    variants.setdefault(x, set()).add(rv['vi'])
+                    for i, o in enumerate(rv['ops']):
+                        oty = locs[o['l']]['ty'] if ('l' in o and not o['p']) else o.get('ty')
+                        fields.setdefault(x, {}).setdefault(i, oty or '?')
+                        if 'l' in o and mention(o, 'read') == 'whole':
+                            bad.add(o['l'])
+                elif r == 'use' and 'l' in rv['a'] and mention(rv['a'], 'read') == 'whole':
+                    edges.append((x, rv['a']['l']))
+                else:
+                    bad.add(x)
+                    for k in ('a', 'b', 'place'):
+                        if k in rv and isinstance(rv[k], dict) and 'l' in rv[k] and mention(rv[k], 'read') == 'whole':
+                            bad.add(rv[k]['l'])
+                continue
+            if r == 'discr' and not rv['place']['p'] and rv['place']['l'] in cand:
+                discr_reads.append((bi, si))
+                continue
+            for k in ('a', 'b', 'place'):
+                if k in rv and isinstance(rv[k], dict) and 'l' in rv[k]:
+                    if mention(rv[k], 'read') == 'whole':
+                        bad.add(rv[k]['l'])
+            for o in rv.get('ops', []):
+                if isinstance(o, dict) and 'l' in o and mention(o, 'read') == 'whole':
+                    bad.add(o['l'])
+        t = bb['term']
+        if t['t'] == 'call':
+            if mention(t['dest'], 'dest') is not None:
+                bad.add(t['dest']['l'])
+            for a in t['args']:
+                if isinstance(a, dict) and 'l' in a and mention(a, 'read') is not None and not a['p']:
+                    bad.add(a['l'])
+        elif t['t'] == 'switch':
+            if 'l' in t['discr'] and mention(t['discr'], 'read') == 'whole':
+                bad.add(t['discr']['l'])
+        elif t['t'] == 'assert':
+            for a in [t['cond']] + list(t.get('ops', [])):
+                if isinstance(a, dict) and 'l' in a and mention(a, 'read') == 'whole':
+                    bad.add(a['l'])
+    comp = {l: l for l in cand}
+
+    def find(x):
+        while comp[x] != x:
+            comp[x] = comp[comp[x]]
+            x = comp[x]
+        return x
+    for a, b2 in edges:
+        comp[find(a)] = find(b2)
+    cvar, cbad, cfields = {}, set(), {}
+    for l in cand:
+        c = find(l)
+        if l in bad:
+            cbad.add(c)
+        cvar.setdefault(c, set()).update(variants.get(l, set()))
+        for fi, ty in fields.get(l, {}).items():
+            cur = cfields.setdefault(c, {}).get(fi)
+            if cur is None or str(cur).startswith('?'):
+                cfields[c][fi] = ty
+    good = {l for l in cand if find(l) not in cbad and len(cvar.get(find(l), ())) == 1 and None not in cvar[find(l)]}
+    # at least one member must actually be defined by an aggregate (otherwise nothing is known)
+    defined = set()
+    for bb in body.blocks:
+        for s in bb['stmts']:
+            if s['s'] == 'assign' and not s['place']['p'] and s['place']['l'] in good and s['rv']['r'] == 'aggr':
+                defined.add(find(s['place']['l']))
+    good = {l for l in good if find(l) in defined}
+    if not good:
+        return body, 0
+    raw = dict(body.raw)
+    raw['blocks'] = copy.deepcopy(body.raw['blocks'])
+    raw['locals'] = copy.deepcopy(body.raw['locals'])
+    nl = raw['locals']
+    newl = {}
+    for l in sorted(good):
+        for fi, ty in sorted(cfields.get(find(l), {}).items()):
+            base = locs[l].get('name')
+            nl.append({'ty': ty or '?', 'name': ('%s.%s' % (base, fi)) if base else None, 'mut': True, 'sroa': [l, fi], 'variant_of': l})
+            newl[(l, fi)] = len(nl) - 1
+
+    def rw_place(pl):
+        l, p = pl['l'], pl['p']
+        if l in good and len(p) >= 2 and isinstance(p[0], dict) and 'downcast' in p[0] and (l, p[1]['f']) in newl:
+            return {'l': newl[(l, p[1]['f'])], 'p': p[2:], 'ty': pl.get('ty')}
+        return pl
+
+    def rw_op(o):
+        if isinstance(o, dict) and 'l' in o:
+            q = rw_place(o)
+            if q is not o:
+                q = dict(q)
+                q['k'] = o.get('k', 'copy')
+                return q
+        return o
+    for bb in raw['blocks']:
+        out = []
+        for s in bb['stmts']:
+            if s['s'] != 'assign':
+                out.append(s)
+                continue
+            pl, rv = s['place'], s['rv']
+            span = s.get('span')
+            if pl['l'] in good and not pl['p']:
+                x = pl['l']
+                if rv['r'] == 'aggr':
+                    for i, o in enumerate(rv['ops']):
+                        if (x, i) in newl:
+                            out.append({'s': 'assign', 'place': {'l': newl[(x, i)], 'p': [], 'ty': nl[newl[(x, i)]]['ty']},
+                                        'rv': {'r': 'use', 'a': rw_op(o)}, 'span': span, 'sroa': True})
+                elif rv['r'] == 'use':
+                    y = rv['a']['l']
+                    for (l2, fi), nidx in sorted(newl.items()):
+                        if l2 == x and (y, fi) in newl:
+                            out.append({'s': 'assign', 'place': {'l': nidx, 'p': [], 'ty': nl[nidx]['ty']},
+                                        'rv': {'r': 'use', 'a': {'k': rv['a'].get('k', 'copy'), 'l': newl[(y, fi)], 'p': [], 'ty': nl[nidx]['ty']}},
+                                        'span': span, 'sroa': True})
+                continue
+            s2 = dict(s)
+            rv2 = dict(rv)
+            if rv['r'] == 'discr' and not rv['place']['p'] and rv['place']['l'] in good:
+                v = list(cvar[find(rv['place']['l'])])[0]
+                rv2 = {'r': 'use', 'a': {'k': 'const', 'ty': pl.get('ty', 'isize'), 'int': str(v), 'syn': 'constant-variant'}}
+            else:
+                for k in ('a', 'b'):
+                    if k in rv2:
+                        rv2[k] = rw_op(rv2[k])
+                if 'place' in rv2:
+                    rv2['place'] = rw_place(rv2['place'])
+                if 'ops' in rv2:
+                    rv2['ops'] = [rw_op(o) for o in rv2['ops']]
+            s2['place'] = rw_place(pl)
+            s2['rv'] = rv2
+            out.append(s2)
+        bb['stmts'] = out
+        t = bb['term']
+        if t['t'] == 'call':
+            t['args'] = [rw_op(a) for a in t['args']]
+            t['dest'] = rw_place(t['dest'])
+        elif t['t'] == 'assert':
+            t['cond'] = rw_op(t['cond'])
+            if 'ops' in t:
+                t['ops'] = [rw_op(a) for a in t['ops']]
+        elif t['t'] == 'drop' and t['place']['l'] in good and not t['place']['p']:
+            bb['term'] = {'t': 'goto', 'target': t['target'], 'span': t.get('span')}
+    # fold switches on a constant discriminant computed in the same block
+    for bb in raw['blocks']:
+        t = bb['term']
+        if t['t'] != 'switch' or 'l' not in t['discr'] or t['discr']['p']:
+            continue
+        d = t['discr']['l']
+        val = None
+        for s in bb['stmts']:
+            if s['s'] == 'assign' and s['place']['l'] == d and not s['place']['p']:
+                a = s['rv'].get('a') if s['rv']['r'] == 'use' else None
+                val = int(a['int']) if isinstance(a, dict) and a.get('k') == 'const' and a.get('syn') == 'constant-variant' else None
+        if val is None:
+            continue
+        tgt = t['otherwise']
+        for v2, b2 in t['arms']:
+            if int(v2) == val:
+                tgt = b2
+        bb['term'] = {'t': 'goto', 'target': tgt, 'span': t.get('span'), 'syn': 'constant-variant'}
+    nb = Body(raw, body.crate_kind)
+    for a in ('key_in_facts', 'inlined', 'fused', 'yields', 'original'):
+        if hasattr(body, a):
+            setattr(nb, a, getattr(body, a))
     return nb, len(good)
